@@ -145,6 +145,69 @@ func init() {
 				sendCase(cw, []rscp.Message{{Tag: rscp.BAT_REQ_DATA, DataType: rscp.Container, Value: []rscp.Message{m}}}, j == 1, g.time(), fmt.Sprintf("none-with-tag-typed-value dt=%d nested", dt))
 			}
 		}
+		// several calls on one connection, some of them refused by validation (a wrong value; items that fit one by one but
+		// not together; a response tag): every frame that reaches the wire decrypts, in the peer's chain, to a well-formed
+		// frame with the requests of an accepted call — a refused call leaves the cipher state alone
+		for rep := 0; rep < 6; rep++ {
+			cl, err := rscp.NewClient(rscp.ClientConfig{Address: "a", Username: "u", Password: "p", Key: "sendkey"})
+			if err != nil {
+				continue
+			}
+			pc := newPeerCipher("sendkey")
+			sc := &scriptConn{}
+			sc.onWrite = func(k int, b []byte) [][]byte {
+				pl := frameBytes(itemBytes(uint32(rscp.RSCP_AUTHENTICATION), 3, []byte{10}), true, 1, 2)
+				if k > 0 {
+					pl = frameBytes(itemBytes(uint32(rscp.INFO_SERIAL_NUMBER), 13, []byte("x")), true, 1, 2)
+				}
+				ct := make([]byte, len(pl))
+				pc.enc.CryptBlocks(ct, pl)
+				return [][]byte{ct}
+			}
+			cl.VerifAttachConn(sc)
+			big := strings.Repeat("a", 40000)
+			calls := [][]rscp.Message{g.nonceRequest(0),
+				{{Tag: 0x01000001, DataType: rscp.CString, Value: big}, {Tag: 0x01000002, DataType: rscp.CString, Value: big}},
+				g.nonceRequest(2),
+				{{Tag: rscp.INFO_REQ_UTC_TIME, DataType: rscp.UChar8, Value: "wrong"}},
+				{{Tag: rscp.EMS_POWER_PV, DataType: rscp.None}},
+				g.nonceRequest(5)}
+			if rep%2 == 1 {
+				calls[1], calls[3] = calls[3], calls[1]
+			}
+			var res, accepted []string
+			for _, reqs := range calls {
+				_, err := cl.SendMultiple(reqs)
+				if err != nil {
+					res = append(res, "err "+clientErrClass(err))
+				} else {
+					res = append(res, "ok")
+					accepted = append(accepted, msgsString(reqs))
+				}
+			}
+			prop := "pass"
+			var seen []string
+			for k, w := range sc.writes {
+				if len(w)%32 != 0 {
+					prop = "FAIL C05 a write is not block aligned"
+					break
+				}
+				pl := make([]byte, len(w))
+				pc.dec.CryptBlocks(pl, w)
+				text, _, _, _, perr := peerParseFrame(pl)
+				if perr != "" {
+					prop = fmt.Sprintf("FAIL C05 frame %d on the connection cannot be decoded by the peer (%s) after results %s ;; FAIL C06 the client's cipher state is out of step with the peer's", k, perr, strings.Join(res, ","))
+					break
+				}
+				if k > 0 {
+					seen = append(seen, text)
+				}
+			}
+			if prop == "pass" && strings.Join(seen, " | ") != strings.Join(accepted, " | ") {
+				prop = "FAIL C05 the frames on the wire are not the accepted requests: " + trunc(strings.Join(seen, " | "), 150)
+			}
+			cw.add("skip", "skip", "N send refused-then-valid results="+strings.Join(res, ","), prop)
+		}
 		// a write that times out after 0 bytes (full socket buffer), on the authentication frame or on the request frame,
 		// then two more calls: whatever the client does, nothing may be written on that connection after the failed
 		// write (its cipher state has moved on, the peer's has not)
